@@ -153,7 +153,15 @@ class G:
                 inner = [("X", ("=", f, ("f", [], [("T", ("v", c))])))] + inner
             pre = [("D", "l", f, ("f", [], [("T", ("n", -1))]))]
             post = [("P", [("c", ("v", f), [])])]
-            st = ("R", "l", c, ("n", 0), test, inc[1], ("B", inner))
+            init = ("n", 0)
+            if r() % 3 == 0:
+                # a closure created in the initializer sees the INITIAL environment: writes of iteration 0 must not reach it
+                f0 = self.fresh("g")
+                pre.append(("D", "l", f0, ("f", [], [("T", ("n", -2))])))
+                init = ("&", ("=", f0, ("f", [], [("T", ("v", c))])), ("n", 0))
+                inner = [("P", [("v", c), ("c", ("v", f0), [])]), ("I", ("o", "seq", ("v", c), ("n", 0)), ("X", ("=", c, ("o", "add", ("v", c), ("n", 0)))), None)] + inner
+                post.append(("P", [("c", ("v", f0), [])]))
+            st = ("R", "l", c, init, test, inc[1], ("B", inner))
         if label:
             self.labels.pop()
             st = ("L", label, st)
@@ -364,6 +372,10 @@ FIXED = [
     [("D", "v", "x", ("n", 1)), ("F", "f", [], [("P", [("v", "x")]), ("D", "v", "x", ("n", 2)), ("T", ("v", "x"))]), ("P", [("c", ("v", "f"), []), ("v", "x")])],
     [("L", "A", ("B", [("P", [("s", "in")]), ("K", "A"), ("P", [("s", "not")])])), ("X", ("n", 4))],
     [("D", "v", "i", ("n", 0)), ("L", "A", ("W", ("o", "lt", ("v", "i"), ("n", 3)), ("B", [("X", ("=", "i", ("o", "add", ("v", "i"), ("n", 1)))), ("D", "v", "j", ("n", 0)), ("W", ("o", "lt", ("v", "j"), ("n", 3)), ("B", [("X", ("=", "j", ("o", "add", ("v", "j"), ("n", 1)))), ("I", ("o", "seq", ("v", "j"), ("n", 2)), ("C", "A"), None), ("P", [("v", "i"), ("v", "j")])]))])))],
+    [("D", "l", "g", ("f", [], [("T", ("n", -1))])),
+     ("R", "l", "i", ("&", ("=", "g", ("f", [], [("T", ("v", "i"))])), ("n", 0)), ("o", "lt", ("v", "i"), ("n", 3)), ("=", "i", ("o", "add", ("v", "i"), ("n", 1))),
+      ("B", [("I", ("o", "seq", ("v", "i"), ("n", 0)), ("X", ("=", "i", ("n", 10))), None), ("P", [("v", "i"), ("c", ("v", "g"), [])])])),
+     ("P", [("c", ("v", "g"), [])])],
 ]
 
 # Hand-derived expectations (ECMA-262) for constructs OUTSIDE the Lean fragment. These are tests, not proofs: they keep the
@@ -382,6 +394,7 @@ SPEC_FACTS = [
     ("var i = 0, out = []; do { i++; out.push(i); if (i < 3) continue; } while (false); print(out.join());", ["1"]),
     ("var out = []; outer: do { for (var j = 0; j < 2; j++) { out.push(j); if (j === 1) continue outer; } } while (false); print(out.join());", ["0,1"]),
     ("var n = 0; do { try { n++; continue; } finally { n += 10; } } while (n < 5); print(n);", ["11"]),
+    ("var i = 0; print(eval('do { i++; { 7; } if (i === 4) { 1; } } while (i < 1)'), eval('l: { { 7; } if (i === 4) { 1; } }'), eval('switch (0) { case 0: { 7; } try { } catch { } }'), eval('do { { 7; } with ({}) { } } while (false)'), eval('do { { 7; } for (var k in {}) { } } while (false)'), eval('do { { 7; } l: { } } while (false)'));", ["undefined undefined undefined undefined undefined 7"]),
     ("print(eval('1; do { 2; continue; } while (false)'), eval('3; do { } while (false)'), eval('4; for (var q = 0; q < 1; q++) { 5; continue; }'));", ["2 undefined 5"]),
     ("function f(){ let x = 1; return x + (x = 5); } print(f()); function g(){ let p = '5'; return typeof (p++); } print(g());", ["6", "number"]),
     ("print(1 + undefined, '1' + null, [] + {}, 1 < '2', 'a' < 'b', null == undefined, null == 0, NaN != NaN, '2' * '3', 2 ** 3 ** 2, -(2 ** 2), 7 % -3, -7 % 3);", ["NaN 1null [object Object] true true true false true 6 512 -4 1 -1"]),
@@ -389,6 +402,69 @@ SPEC_FACTS = [
     ("var log = []; function t(n, v) { log.push(n); return v; } t('a', 0) || t('b', 1) && t('c', 0) ?? t('d', 1); t('e', null) ?? t('f', 2); print(log.join());", None),
     ("var log = []; function t(n, v) { log.push(n); return v; } (t('a', 0) || t('b', 1)) && t('c', 0); t('e', null) ?? t('f', 2); t('g', 1) ? t('h', 1) : t('i', 1); print(log.join());", ["a,b,c,e,f,g,h"]),
 ]
+
+# ------------------------------------------------------------------------------------------------ operators and coercions (second model)
+CO_STR = ["", "5", " 7 ", "-3", "a", "abc", "10", "9", "1e", "+4", " ", "0", "true", "null", "NaN", "-"]
+CO_NUM = [0, 1, -1, 2, 7, 10, 42, -5, 100]
+CO_BIN = {"add": "+", "sub": "-", "mul": "*", "lt": "<", "gt": ">", "le": "<=", "ge": ">=", "eq": "==", "ne": "!=", "seq": "===", "sne": "!=="}
+CO_UN = {"neg": "-a", "plus": "+a", "not": "!a", "typeof": "typeof a", "template": "`${a}`", "string": "String(a)", "number": "Number(a)"}
+CO_PRELUDE = r"""
+var log = [];
+function M(id, kind, spec) { if (spec === undefined) return undefined; return function () { log.push(kind + id); if (spec.t !== undefined) throw 'T' + spec.t; if (spec.o) return {}; return spec.p; }; }
+function mk(id, v, s) { return { valueOf: M(id, 'v', v), toString: M(id, 's', s) }; }
+function show(f, a, b) { log = []; try { var r = f(a, b); print('ok ' + typeof r + ':' + String(r) + ' ' + (log.join(',') || '-')); } catch (e) { print('err ' + (typeof e === 'string' ? 'thrown:' + e.slice(1) : e.name) + ' ' + (log.join(',') || '-')); } }
+"""
+
+
+def co_prim(r):
+    k = r() % 10
+    if k == 0:
+        return ("u", "undefined")
+    if k == 1:
+        return ("n", "null")
+    if k == 2:
+        return ("t", "true") if r() % 2 else ("f", "false")
+    if k == 3:
+        return ("N", "NaN")
+    if k < 7:
+        n = CO_NUM[r() % len(CO_NUM)]
+        return ("i%d" % n, "(%d)" % n)
+    st = CO_STR[r() % len(CO_STR)]
+    return ("s" + st.encode().hex(), json.dumps(st))
+
+
+def co_ret(r):
+    k = r() % 8
+    if k == 0:
+        return ("-", "undefined")
+    if k == 1:
+        return ("O", "{o: 1}")
+    if k == 2:
+        t = r() % 5
+        return ("T%d" % t, "{t: %d}" % t)
+    tok, js = co_prim(r)
+    return ("P" + tok, "{p: %s}" % js)
+
+
+def co_val(r, ident):
+    if r() % 5 < 2:
+        return co_prim(r)
+    v, s = co_ret(r), co_ret(r)
+    return ("o%d:%s:%s" % (ident, v[0], s[0]), "mk(%d, %s, %s)" % (ident, v[1], s[1]))
+
+
+def co_case(r):
+    if r() % 4 == 0:
+        op = list(CO_UN)[r() % len(CO_UN)]
+        a = co_val(r, 1)
+        return "co %s %s" % (op, a[0]), "show(function (a) { return %s; }, %s);" % (CO_UN[op], a[1])
+    op = list(CO_BIN)[r() % len(CO_BIN)]
+    a = co_val(r, 1)
+    if a[0].startswith("o") and r() % 6 == 0:
+        return "co %s %s %s" % (op, a[0], a[0]), "(function () { var x = %s; show(function (a, b) { return a %s b; }, x, x); })();" % (a[1], CO_BIN[op])
+    b = co_val(r, 2)
+    return "co %s %s %s" % (op, a[0], b[0]), "show(function (a, b) { return a %s b; }, %s, %s);" % (CO_BIN[op], a[1], b[1])
+
 
 ROUTES = [
     ("bytes", lambda p: p),
@@ -416,7 +492,7 @@ def run(ck):
     src = []
     for i, p in enumerate(progs):
         src.append("//// m%d budget=3000000" % i)
-        src.append("'use strict';\n" + S_HELPER + js_block(p))
+        src.append("'use strict';\n" + S_HELPER + "void 0;\n" + js_block(p))
     # ---- (ii) route / source independence on richer programs
     rich = [jsgen.gen_program(r, 3, strict=False) for _ in range(60 if quick else 1500)]
     for i, p in enumerate(rich):
@@ -492,6 +568,39 @@ def run(ck):
         if j is None or j["out"] != want or not j["completion"].startswith("ok"):
             ck.fail_input({"site": "spec-fact", "input": p, "expected": want, "actual": j and {"out": j["out"], "completion": j["completion"]},
                            "oracle": "hand-derived from ECMA-262 (regression test, outside the Lean fragment)"})
+    # ---- (iv) operators and coercions: second Lean model vs engine
+    cases = [co_case(r) for _ in range(1500 if quick else 60000)]
+    manswers = ck.driver("drv-c01", [c[0] for c in cases])
+    csrc = []
+    CH = 300
+    for ci in range(0, len(cases), CH):
+        csrc.append("//// k%d budget=30000000" % (ci // CH))
+        csrc.append(CO_PRELUDE + "\n".join(c[1] for c in cases[ci:ci + CH]))
+    rc, out, err = ck.run_bin(bins["trace"], input="\n".join(csrc) + "\n")
+    eng = {}
+    for l in out.split("\n"):
+        if l.startswith("{"):
+            j = json.loads(l)
+            eng[int(j["id"][1:])] = j
+    co_bad = 0
+    co_kinds = {}
+    for ci in range(0, len(cases), CH):
+        j = eng.get(ci // CH)
+        lines = j["out"] if j else []
+        for k, (case, m) in enumerate(zip(cases[ci:ci + CH], manswers[ci:ci + CH])):
+            mt = m.split(" ")
+            if mt[0] == "ok":
+                ty, hx = mt[1].split(":", 1)
+                want = "ok %s:%s %s" % (ty, bytes.fromhex(hx).decode() if hx != "-" else "", mt[2])
+            else:
+                want = m
+            co_kinds[mt[0] + ("" if mt[0] == "ok" else " " + mt[1].split(":")[0])] = co_kinds.get(mt[0] + ("" if mt[0] == "ok" else " " + mt[1].split(":")[0]), 0) + 1
+            got = lines[k] if k < len(lines) else None
+            if got != want:
+                co_bad += 1
+                if co_bad <= 12:
+                    ck.fail_input({"site": "operator-coercion-differs-from-reference-semantics", "input": CO_PRELUDE.strip() + "\n" + case[1], "request": case[0],
+                                   "expected": want, "actual": got, "oracle": "Lean model C01.Coerce (ToPrimitive order, IsLessThan, IsLooselyEqual, string/number operators)"})
     ck.oblige("correspondence:engine trace and completion == C01 reference interpreter on %d programs (%d printed lines); %d route comparisons" % (len(progs), stats["lines"], n_routes),
               "correspondence", True)
     ck.coverage.update({
@@ -502,6 +611,7 @@ def run(ck):
                 "TDZ/const/undeclared probes, closures over per-iteration bindings; %d fixed programs on completion values and finally; route programs from the shared generator x %d routes. distinct = distinct programs" % (len(FIXED), len(ROUTES)),
         "model_outcomes": stats,
         "spec_facts": len(facts),
+        "coercion_cases": len(cases), "coercion_outcomes": co_kinds,
         "samples": [js_block(progs[len(FIXED)])[:500]],
         "partial": ["objects, coercions, generators, destructuring, classes are outside the Lean fragment; they are covered only by the route differentials"],
     })
